@@ -6,6 +6,7 @@ entry).  The position of a descriptor is an index into that sequence.  getdents6
 starting at the position and advances the position to the end of the run; lseek64(fd, c) positions after the entry whose `off` is c.
 All host calls are capability-free models in module `sys` threaded with a ghost token `ks: &mut KState` (R23); the callback
 `&mut dyn FnMut(DirEntry, RawFd)` is a generic `A: AddEntry` with a ghost log of its calls."""
+import os
 import re
 
 from vx import extract as X
@@ -13,6 +14,7 @@ from vx.api import Unit, Fn, Copy, Raw, Group, ByteConst
 
 PT = 'src/passthrough/mod.rs'
 PTS = 'src/passthrough/sync_io.rs'
+PTMOD = 'src/passthrough/mod.rs'
 UTIL = 'src/passthrough/util.rs'
 OSC = 'src/passthrough/os_compat.rs'
 FSMOD = 'src/api/filesystem/mod.rs'
@@ -85,6 +87,8 @@ pub struct HandleMap { pub cookies: CookieMutex }
 #[verifier::external_body] pub struct CookieMutex { _p: u8 }
 #[verifier::external_body] pub struct CookieLocked<'a> { _p: PhantomData<&'a u8> }
 #[verifier::external_body] pub struct CookieGuard<'a> { _p: PhantomData<&'a u8> }
+// Option<&u64> == Some(&x): PartialEq of Option / of references
+pub fn vx_opt_ref_eq(o: Option<&u64>, x: u64) -> (r: bool) ensures r == (o is Some && *o->Some_0 == x) { match o { Some(v) => *v == x, None => false } }
 impl CookieMutex { #[verifier::external_body] pub fn lock(&self) -> (r: CookieLocked<'_>) { unimplemented!() } }
 impl<'a> CookieLocked<'a> { #[verifier::external_body] pub fn unwrap(self) -> (r: CookieGuard<'a>) { unimplemented!() } }      // locks are never poisoned (sequential model)
 impl<'a> CookieGuard<'a> {
@@ -769,15 +773,76 @@ def r85_ref_pattern(body, fired):
     return body
 
 
+_ROOT = ['/repo']
+
+
+def r87_opt_ref_eq(body, fired):
+    """R87  `E == Some(&X)` on an Option<&u64> (PartialEq of Option and of references: equal iff both Some and the referents equal) -> the model call
+    `vx_opt_ref_eq(E, X)` with exactly that meaning."""
+    n = len(re.findall(r'==\s*Some\(&(\w+)\)', body))
+    if n:
+        body = re.sub(r'(\b[\w.]+\([^()]*(?:\([^()]*\))?[^()]*\))\s*==\s*Some\(&(\w+)\)', r'vx_opt_ref_eq(\1, \2)', body)
+        if re.search(r'==\s*Some\(&(\w+)\)', body):
+            raise X.ExtractError('R87: unrecognised left operand of `== Some(&x)`')
+        fired.append('R87 `E == Some(&x)` -> vx_opt_ref_eq(E, x) (%d)' % n)
+    return body
+
+
+def r86_inline_helper(root, known=('set_cookie', 'remove_cookie', 'get', 'insert', 'remove', 'clear', 'release')):
+    """R86  a call `self.handle_map.NAME(ARGS)` of a HandleMap method the model has NO contract for (a helper added next to set_cookie / remove_cookie)
+    -> the method's real body, taken from `impl HandleMap` of src/passthrough/mod.rs, in a block at the call: `{ let P1: T1 = A1; ..; BODY }` with
+    `self.` -> `self.handle_map.` (call-by-value of the arguments in order, as Rust evaluates them; same meaning as the call).  Only for a body
+    without `return` / `?` / `self` used other than as `self.FIELD` and for distinct parameter names; anything else is exit 2.  A function without a
+    contract cannot be called from verified code - its body can be read instead, so the CALLER's contract decides (seeds C16-b / -d / -e)."""
+    def hook(body, fired):
+        for _ in range(4):
+            msk = X.mask(body)
+            m = None
+            for c in re.finditer(r'self\s*\.\s*handle_map\s*\.\s*(\w+)\s*\(', msk):
+                if c.group(1) not in known:
+                    m = c
+                    break
+            if m is None:
+                return body
+            name = m.group(1)
+            ob = m.end() - 1
+            cb = X.match_close(msk, ob)
+            args = [a.strip() for a in X.split_top(body[ob + 1:cb])] if body[ob + 1:cb].strip() else []
+            src = open(os.path.join(root, PTMOD)).read()
+            smsk = X.mask(src)
+            im = re.search(r'\bimpl\s+HandleMap\s*\{', smsk)
+            if not im:
+                raise X.ExtractError('R86: impl HandleMap not found')
+            ie = X.match_close(smsk, im.end() - 1)
+            fm = re.search(r'\bfn\s+%s\s*\(\s*&self\s*(?:,([^)]*))?\)\s*(?:->\s*[^{]+)?\{' % re.escape(name), smsk[im.end():ie])
+            if not fm:
+                raise X.ExtractError('R86: HandleMap::%s is neither modelled nor a `&self` method of impl HandleMap' % name)
+            fb = im.end() + fm.end() - 1
+            fe = X.match_close(smsk, fb)
+            fbody = src[fb + 1:fe]
+            fmsk = smsk[fb + 1:fe]
+            params = [q.strip() for q in (fm.group(1) or '').split(',') if q.strip()]
+            if len(params) != len(args) or re.search(r'\breturn\b|\?', fmsk) or re.search(r'\bself\b(?!\s*\.\s*\w)', fmsk):
+                raise X.ExtractError('R86: HandleMap::%s has a shape that is not inlined (return / ? / bare self / arity)' % name)
+            lets = ' '.join('let %s = %s;' % (q, a) for q, a in zip(params, args))
+            inl = '{ %s %s }' % (lets, re.sub(r'\bself\s*\.', 'self.handle_map.', fbody).strip())
+            inl = re.sub(r'//[^\n]*', '', inl)
+            body = body[:m.start()] + inl.replace('\n', X.SEP) + body[cb + 1:]
+            fired.append('R86 uncontracted helper HandleMap::%s inlined at its call (%d parameter(s), body of %d line(s) from %s)' % (name, len(params), fbody.count('\n'), PTMOD))
+        raise X.ExtractError('R86: more than 4 nested helper calls')
+    return hook
+
+
 def tok(f, callees=('consume_cached_cookie', 'cache_cookie', 'set_cookie', 'remove_cookie', 'get', 'contains_key', 'remove', 'insert')):
     f.rules = ('R23',)
     if f.name in ('consume_cached_cookie', 'cache_cookie'):
-        f.body_hooks = [r85_ref_pattern]
+        f.body_hooks = [r86_inline_helper(_ROOT[0]), r87_opt_ref_eq, r85_ref_pattern]
     f.ghost_token = dict(TOK, callees=list(callees))
     return f
 
 
 def unit(root='/repo'):
+    _ROOT[0] = root
     items = [
         Copy(OSC, r'pub struct LinuxDirent64\b', prefix='#[derive(Clone, Copy)]'),
         Raw(layout_text(root)),
